@@ -265,6 +265,13 @@ class SSemaphore:
         s = self.sched
         if s.aborting:
             return True
+        if not blocking:
+            # try-acquire: a visible operation that never blocks
+            s.point("sem.try_acquire")
+            if self.value > 0:
+                self.value -= 1
+                return True
+            return False
         s.point("sem.acquire", lambda: self.value > 0)
         self.value -= 1
         return True
